@@ -215,8 +215,16 @@ impl tx3_tir::compile::Compiler for RecCompiler {
         res
     }
 
+    fn reset(&mut self) {
+        tx3_tir::compile::Compiler::reset(&mut self.inner);
+    }
+
     fn reduce_op(&self, op: Self::CompilerOp) -> Result<Self::Expression, tx3_tir::reduce::Error> {
         let is_min = matches!(op, tx3_tir::model::v1beta0::CompilerOp::ComputeMinUtxo(_));
+        let idx = match &op {
+            tx3_tir::model::v1beta0::CompilerOp::ComputeMinUtxo(x) => x.as_number().map(|n| n as i64).unwrap_or(-1),
+            _ => -1,
+        };
         let had_mem = self.inner.latest_tx_body.is_some();
         let res = self.inner.reduce_op(op);
         if is_min {
@@ -226,7 +234,7 @@ impl tx3_tir::compile::Compiler for RecCompiler {
                 }
                 _ => Value::Null,
             };
-            self.log.lock().unwrap().push(json!({"ev": "MinUtxo", "had_mem": had_mem, "result": out, "ok": res.is_ok()}));
+            self.log.lock().unwrap().push(json!({"ev": "MinUtxo", "had_mem": had_mem, "result": out, "ok": res.is_ok(), "index": idx}));
         }
         res
     }
